@@ -131,12 +131,19 @@ def handle : Handler
       match rest.mapM readTok with
       | some ts => (match parse ts with | some e => "tree=" ++ (toTree e).show | none => "none")
       | none => "bad-op"
-  | ["W", i, h] =>
-      match i.toNat?, unhex h with
-      | some i, some w =>
-          (match identAcceptSets[i]? with
-           | some acc => (match lexWord acc w with | some k => mn k | none => "none")
-           | none => "bad-op")
+  | ["W", pos, h] =>
+      -- how a word is typed in an expression position / after `.` / as a field name, and whether the
+      -- parser accepts that terminal there
+      let acc? : Option (List TK) := match pos with
+        | "primary" => identAcceptSets.find? (fun a => a.contains .LPAR && !a.contains .RPAR && !a.contains .RSQB && !a.contains .RBRACE)
+        | "dot" => identAcceptSets.find? (fun a => a == [.IDENT])
+        | "field" => identAcceptSets.find? (fun a => a == [.RBRACE, .IDENT])
+        | _ => none
+      match acc?, unhex h with
+      | some acc, some w =>
+          (match lexWord acc w with
+           | some k => if acc.contains k then "type=" ++ mn k else "parse-error"
+           | none => "parse-error")
       | _, _ => "bad-op"
   | _ => "bad-op"
 
